@@ -59,6 +59,8 @@ pub enum Cc {
 #[derive(Clone, Debug, Default)]
 pub struct Lim {
     pub stream_window: Option<u64>,
+    /// pairwise different stream windows (bidi_local, bidi_remote, uni); overrides `stream_window`
+    pub win_kinds: Option<(u64, u64, u64)>,
     pub conn_window: Option<u64>,
     pub max_bidi_remote: Option<u64>,
     pub max_bidi_local: Option<u64>,
@@ -77,6 +79,9 @@ impl Lim {
         let mut l = QLimits::new().with_pto_jitter_percentage(0).unwrap();
         if let Some(v) = self.stream_window {
             l = l.with_bidirectional_local_data_window(v).unwrap().with_bidirectional_remote_data_window(v).unwrap().with_unidirectional_data_window(v).unwrap();
+        }
+        if let Some((bl, br, u)) = self.win_kinds {
+            l = l.with_bidirectional_local_data_window(bl).unwrap().with_bidirectional_remote_data_window(br).unwrap().with_unidirectional_data_window(u).unwrap();
         }
         if let Some(v) = self.conn_window {
             l = l.with_data_window(v).unwrap();
@@ -146,6 +151,8 @@ pub struct ServerMode {
     pub small_read: Option<usize>,
     /// pause this long after each read
     pub read_pause_us: u64,
+    /// read through `receive_vectored` with this many chunk slots (see `Scenario::vectored_slots`)
+    pub vectored_slots: Option<usize>,
     /// do not read at all (peer runs into flow control)
     pub never_read: bool,
     /// wait this long before the first read of every stream, then drain in one burst
@@ -176,6 +183,9 @@ pub struct Scenario {
     /// client reader: small reads / pauses
     pub client_small_read: Option<usize>,
     pub client_read_pause_us: u64,
+    /// every reader (both sides) uses `receive_vectored` with this many chunk slots and trusts its
+    /// `is_open` flag as the end-of-stream signal (the third receive API besides `receive` and AsyncRead)
+    pub vectored_slots: Option<usize>,
     pub client_accepts_uni: bool,
     pub horizon_ms: u64,
     pub base_delay_ms: u64,
@@ -205,6 +215,7 @@ impl Scenario {
             tasks: vec![],
             client_small_read: None,
             client_read_pause_us: 0,
+            vectored_slots: None,
             client_accepts_uni: false,
             horizon_ms: 60_000,
             base_delay_ms: 25,
@@ -628,13 +639,39 @@ async fn with_deadline<F: std::future::Future<Output = ()>>(name: String, rec: R
     }
 }
 
-async fn read_stream(mut recv: s2n_quic::stream::ReceiveStream, key: u64, rec: Rec, ep: u8, small: Option<usize>, pause_us: u64, stop_after: Option<u64>) -> u64 {
+/// one `receive_vectored` call with `slots` chunk slots; `*eof` is set when the call reports the stream
+/// as no longer open (its documented end-of-stream signal)
+async fn read_vectored(recv: &mut s2n_quic::stream::ReceiveStream, slots: usize, eof: &mut bool) -> Result<Option<Vec<u8>>, String> {
+    let mut chunks = vec![Bytes::new(); slots.max(1)];
+    match recv.receive_vectored(&mut chunks).await {
+        Ok((count, is_open)) => {
+            let mut data = Vec::new();
+            for c in &chunks[..count] {
+                data.extend_from_slice(c);
+            }
+            if !is_open {
+                *eof = true;
+            }
+            if data.is_empty() && !is_open {
+                Ok(None)
+            } else {
+                Ok(Some(data))
+            }
+        }
+        Err(e) => Err(format!("{:?}", e)),
+    }
+}
+
+async fn read_stream(mut recv: s2n_quic::stream::ReceiveStream, key: u64, rec: Rec, ep: u8, small: Option<usize>, pause_us: u64, stop_after: Option<u64>, vectored: Option<usize>) -> u64 {
     use futures::io::AsyncReadExt;
     let id = recv.id();
     let mut off = 0u64;
     let mut stopped = false;
+    let mut veof = false;
     loop {
         let res: Result<Option<Vec<u8>>, String> = match small {
+            _ if veof => Ok(None),
+            _ if vectored.is_some() => read_vectored(&mut recv, vectored.unwrap(), &mut veof).await,
             None => recv.receive().await.map(|o| o.map(|b| b.to_vec())).map_err(|e| format!("{:?}", e)),
             Some(n) => {
                 let mut buf = vec![0u8; n];
@@ -737,8 +774,9 @@ async fn client_task(mut conn: s2n_quic::connection::Handle, ops: Vec<Op>, rec: 
                     let key = if scn.server_mode.echo { C2S ^ id } else { S2C ^ id };
                     let small = scn.client_small_read;
                     let pause = scn.client_read_pause_us;
+                    let vectored = scn.vectored_slots;
                     primary::spawn(with_deadline(format!("client-reader-{}", id), rec.clone(), CLIENT, deadline_us, async move {
-                        let n = read_stream(r, key, rec2, CLIENT, small, pause, None).await;
+                        let n = read_stream(r, key, rec2, CLIENT, small, pause, None, vectored).await;
                         let _ = tx.send(n);
                     }));
                 }
@@ -838,6 +876,7 @@ async fn client_task(mut conn: s2n_quic::connection::Handle, ops: Vec<Op>, rec: 
 }
 
 async fn server_stream(stream: PeerStream, rec: Rec, mode: ServerMode) {
+    let vectored = mode.vectored_slots;
     match stream {
         PeerStream::Receive(r) => {
             let id = r.id();
@@ -848,7 +887,7 @@ async fn server_stream(stream: PeerStream, rec: Rec, mode: ServerMode) {
             if mode.read_delay_ms > 0 {
                 time::delay(Duration::from_millis(mode.read_delay_ms)).await;
             }
-            read_stream(r, C2S ^ id, rec, SERVER, mode.small_read, mode.read_pause_us, mode.stop_sending_after).await;
+            read_stream(r, C2S ^ id, rec, SERVER, mode.small_read, mode.read_pause_us, mode.stop_sending_after, vectored).await;
         }
         PeerStream::Bidirectional(s) => {
             let id = s.id();
@@ -868,8 +907,11 @@ async fn server_stream(stream: PeerStream, rec: Rec, mode: ServerMode) {
                 let mut woff = 0u64;
                 let mut stopped = false;
                 let mut w_open = true;
+                let mut veof = false;
                 loop {
                     let res: Result<Option<Vec<u8>>, String> = match mode.small_read {
+                        _ if veof => Ok(None),
+                        _ if vectored.is_some() => read_vectored(&mut r, vectored.unwrap(), &mut veof).await,
                         None => r.receive().await.map(|o| o.map(|b| b.to_vec())).map_err(|e| format!("{:?}", e)),
                         Some(n) => {
                             let mut buf = vec![0u8; n];
@@ -938,7 +980,7 @@ async fn server_stream(stream: PeerStream, rec: Rec, mode: ServerMode) {
                     }
                 }
             } else {
-                read_stream(r, C2S ^ id, rec.clone(), SERVER, mode.small_read, mode.read_pause_us, mode.stop_sending_after).await;
+                read_stream(r, C2S ^ id, rec.clone(), SERVER, mode.small_read, mode.read_pause_us, mode.stop_sending_after, vectored).await;
                 if let Some(n) = mode.reply {
                     let mut woff = 0u64;
                     write_prf(&mut w, S2C ^ id, &mut woff, n, 0, &rec, SERVER).await;
@@ -1038,8 +1080,9 @@ fn start_client_app(client: Client, addr: std::net::SocketAddr, rec: Rec, scn: A
                         let rec3 = rec2.clone();
                         let small = scn2.client_small_read;
                         let pause = scn2.client_read_pause_us;
+                        let vectored = scn2.vectored_slots;
                         primary::spawn(with_deadline(format!("client-push-reader-{}", id), rec2.clone(), CLIENT, deadline_us, async move {
-                            read_stream(r, S2C ^ id, rec3, CLIENT, small, pause, None).await;
+                            read_stream(r, S2C ^ id, rec3, CLIENT, small, pause, None, vectored).await;
                         }));
                     }
                 }
